@@ -219,6 +219,11 @@ class ServerRun:
         rec["conns"] = self.pool(self.ctxt.connections)
         rec["temps"] = self.pool(self.ctxt.temp_connections)
         rec["hs_calls"] = list(self.hs_calls)
+        rec["view"] = {}
+        for pool_name, pool in (("conns", self.ctxt.connections), ("temps", self.ctxt.temp_connections)):
+            for a, c in pool.items():
+                rec["view"]["%s:%d" % a] = {"pool": pool_name, "status": c.status.value, "token": c.token, "oid": self.oid(c),
+                                            "key": c.session_key_bytes.hex() if c.session_key_bytes else None}
         rec["draws_made"] = list(self.draws)
         self.draws = []
         self.records.append(rec)
@@ -264,8 +269,32 @@ def canon_events(evs):
     return [e for e in evs if not e.startswith("send:")] + [e for e in evs if e.startswith("send:")]
 
 
+def short_hello(real, rng, tq):
+    """a CLIENT_HELLO that is well formed in every respect (magic, count, header length, CRC, genuine key, version) except that its
+    random padding is cut short or absent: only the padding makes a hello at least as large as the reply it asks for"""
+    C = real.C
+    import io
+    import mpgameserver.serializable as S
+    tmp = C.ClientServerConnection(("x", 1))
+    tmp.clock = lambda: real.now / TICK
+    tmp._sendClientHello()
+    pkt = tmp._build_packet()
+    d = tmp._encode_packet(pkt)
+    body = d[20:-4]                      # message seq (2) + type id (2) + key + version + padding
+    stream = io.BytesIO(body[4:])
+    S.deserialize_value(stream)
+    S.deserialize_value(stream)
+    used = 4 + stream.tell()
+    pad = len(body) - used
+    keep = rng.choice([0, 0, 1, pad // 2, pad - 1, max(0, pad - 100)])
+    nb = body[:used + keep]
+    hb = d[:13] + struct.pack(">H", len(nb)) + d[15:20]
+    out = hb + nb
+    return out + struct.pack(">L", real.crypto.crc32(out))
+
+
 def gen_server_case(real, rng, cid, n_iter=50, n_clients=3, hostile=0.3, mtu=1500, act_p=0.2, collide=0.3, block=(66,),
-                    cfg=None, silent=0.03, leave=0.03, stop_early=0.1):
+                    cfg=None, silent=0.03, leave=0.03, stop_early=0.1, loss=0.1, dup_next=0.0, spawn=0.3, rechal=0.03):
     """one server history generated while the REAL loop runs; returns (case lines, outputs, records, client log)"""
     C = real.C
     cfg = dict(cfg or {"ka": 96, "ot": 1024, "ct": rng.choice([2048, 5120]), "tt": rng.choice([1024, 2048])})
@@ -293,8 +322,12 @@ def gen_server_case(real, rng, cid, n_iter=50, n_clients=3, hostile=0.3, mtu=150
         name = "c%d_%d" % (slot, gen_no[0])
         emit("new %s csc" % name)
         emit("set %s pinned=01 ccb=0 si=16 ka=96 ot=1024 tt=2048" % name)
-        clients[slot] = {"name": name, "addr": (str(10 + slot), 5000 + slot), "phase": "new", "idle": 0}
+        clients[slot] = {"name": name, "addr": (str(10 + slot), 5000 + slot), "phase": "new", "idle": 0, "born": None}
+        everyone.append(clients[slot])
         return clients[slot]
+
+    everyone = []
+    again = []        # datagrams the network delivers a second time, one iteration later
 
     def scenario():
         t = connlib.BASE_T + rng.randint(0, 2000)
@@ -303,12 +336,15 @@ def gen_server_case(real, rng, cid, n_iter=50, n_clients=3, hostile=0.3, mtu=150
         for k in range(n_iter):
             tq = t
             ts = t + rng.choice([0, 1, 3])
-            items = []
+            items = list(again)
+            del again[:]
+            late = []         # items that stay behind the rest of the batch
+            kick = False
             # ---- clients act
             for slot in range(n_clients):
                 cl = clients.get(slot)
                 if cl is None:
-                    if rng.random() < 0.3:
+                    if rng.random() < spawn:
                         cl = new_client(slot)
                     else:
                         continue
@@ -317,6 +353,7 @@ def gen_server_case(real, rng, cid, n_iter=50, n_clients=3, hostile=0.3, mtu=150
                 if cl["phase"] == "new":
                     emit("hello %s t=%d" % (name, tq))
                     cl["phase"] = "up"
+                    cl["born"] = k
                 elif cl["phase"] == "silent":
                     cl["idle"] += 1
                     if cl["idle"] > rng.choice([30, 200, 400]):
@@ -340,10 +377,22 @@ def gen_server_case(real, rng, cid, n_iter=50, n_clients=3, hostile=0.3, mtu=150
                 if o and o[0].startswith("pkt"):
                     kk = len(crun.eps[name]["emits"]) - 1
                     d = crun.eps[name]["emits"][kk]
-                    if rng.random() < 0.9:          # the network may lose it
+                    if rng.random() >= loss:        # the network may lose it
                         items.append((cl["addr"], d, "@%s:%d" % (name, kk)))
                         if rng.random() < 0.08:     # ... or duplicate it
                             items.append((cl["addr"], d, "@%s:%d" % (name, kk)))
+                        if rng.random() < dup_next:  # ... with the copy arriving one iteration later
+                            again.append((cl["addr"], d, "@%s:%d" % (name, kk)))
+                if cl["phase"] == "up" and conn.status.value == 2 and conn.session_key_bytes and rng.random() < rechal:
+                    # the (authenticated) client repeats its challenge response in a fresh datagram, right behind its other traffic
+                    ss, sm = (int(conn.seq_sending) % 65535) + 1, (int(conn.seq_message) % 65535) + 1
+                    emit("set %s ss=%d sm=%d" % (name, ss, sm))
+                    chal = C.HandshakeClientChallengeResponseMessage()
+                    chal.token = conn.token
+                    pt = struct.pack(">H", sm) + chal.dumpb()
+                    late.append((cl["addr"], None, "!3,%d,%d,%d,%d,1:%s:%s" % (ss, int(conn.bitfield_pkt.current_seqnum), conn.bitfield_pkt.bits,
+                                                                            tq // 1024, pt.hex(), conn.session_key_bytes.hex())))
+                    kick = kick or rng.random() < 0.6
                 if cl["phase"] == "leaving":
                     cl["phase"] = "silent"
             # ---- hostile datagrams
@@ -379,8 +428,11 @@ def gen_server_case(real, rng, cid, n_iter=50, n_clients=3, hostile=0.3, mtu=150
                     elif how == "ext":
                         d = d + b"\x00" * rng.randint(1, 9)
                     elif how == "retype":
-                        d = d[:12] + bytes([rng.randint(0, 7)]) + d[13:]
+                        d = d[:12] + bytes([(d[12] + rng.randint(1, 7)) % 8]) + d[13:]     # always a different type
                     addr = cl["addr"] if rng.random() < 0.7 else (str(90), 7)
+                elif r < 0.85:
+                    d = short_hello(real, rng, tq)
+                    addr = (str(rng.choice([66, 92, 93, 94])), rng.randint(1, 3))
                 else:
                     # a well-formed hello from a stranger (possibly block-listed), truncated or not
                     tmp = C.ClientServerConnection(("x", 1))
@@ -393,8 +445,13 @@ def gen_server_case(real, rng, cid, n_iter=50, n_clients=3, hostile=0.3, mtu=150
                     addr = (str(rng.choice([66, 92, 93, 94])), rng.randint(1, 3))
                 items.append((addr, d, d.hex() or "-"))
             rng.shuffle(items)
+            for addr, _d, spec_s in late:
+                items.append((addr, real.craft(spec_s, True), spec_s))
             # keep at most one genuine datagram per address and iteration in front of its duplicates (oracle association)
             acts = [rng.choice(["raise", "echo", "disc", "echoRaise", "discRaise"]) if rng.random() < act_p else "ok" for _ in range(40)]
+            if kick:
+                # the handler disconnects every client it hears from in this iteration
+                acts = [rng.choice(["disc", "disc", "discRaise"]) for _ in range(40)]
             draws = []
             if tokens_seen and rng.random() < collide:
                 # the random source repeats tokens that are in use (and the all-zero draw) before it yields a fresh value
@@ -441,7 +498,7 @@ def gen_server_case(real, rng, cid, n_iter=50, n_clients=3, hostile=0.3, mtu=150
                 kk = len(crun.eps["S"]["emits"]) - 1
                 crun.key_of[("S", kk)] = None
                 for cl in clients.values():
-                    if cl and cl["addr"] == addr and cl["phase"] in ("up", "leaving") and rng.random() < 0.92:
+                    if cl and cl["addr"] == addr and cl["phase"] in ("up", "leaving") and rng.random() >= min(loss, 0.08):
                         emit("recv %s t=%d d=@S:%d" % (cl["name"], ts, kk))
             t = ts + rng.choice([8, 16, 17, 33, 50, 100, 300])
             if rng.random() < stop_early / max(1, n_iter):
@@ -454,6 +511,15 @@ def gen_server_case(real, rng, cid, n_iter=50, n_clients=3, hostile=0.3, mtu=150
         records = srv.run()
     finally:
         crun.close()
+    # final view of both sides (for the agreement monitor): every client object ever created, and the server's pools
+    fin = {"op": "final", "iterations": len(records), "clients": [], "server": {}}
+    for cl in everyone:
+        conn = crun.eps[cl["name"]]["conn"]
+        fin["clients"].append({"name": cl["name"], "addr": cl["addr"], "born": cl["born"], "phase": cl["phase"],
+                               "current": any(c is cl for c in clients.values()), "status": conn.status.value, "token": conn.token,
+                               "key": conn.session_key_bytes.hex() if conn.session_key_bytes else None})
+    fin["server"] = records[-1]["view"] if records else {}
+    log.append(fin)
     stop_acts = getattr(srv, "stop_acts", [])
     lines.append("stop acts=%s" % (",".join(stop_acts) or "-"))
     outs.append("ev=%s" % ",".join(srv.shutdown_events))
